@@ -28,6 +28,7 @@ const (
 	RemoveUses              // make every use of one package local (its import must then go)
 	DropImportSpec          // hand-edit: delete the n-th import spec from its declaration (File.Imports is left as it was)
 	AddImportSpec           // hand-edit: append an import spec to the first import declaration (File.Imports is left as it was)
+	UnpathAll               // make every remote identifier local: every import becomes unused at once
 	NumKinds
 )
 
@@ -40,7 +41,7 @@ type Edit struct {
 }
 
 func (e Edit) String() string {
-	names := [...]string{"AddUse", "AddCall", "RemoveDecl", "Repath", "Unpath", "AddComment", "SwapDecls", "RemoveUses", "DropImportSpec", "AddImportSpec"}
+	names := [...]string{"AddUse", "AddCall", "RemoveDecl", "Repath", "Unpath", "AddComment", "SwapDecls", "RemoveUses", "DropImportSpec", "AddImportSpec", "UnpathAll"}
 	return fmt.Sprintf("%s(n=%d,m=%d,path=%q,name=%q)", names[e.Kind], e.N, e.M, e.Path, e.Name)
 }
 
@@ -191,6 +192,10 @@ func apply(f *dst.File, e Edit) {
 		}
 		i := e.M % len(gd.Specs)
 		gd.Specs = append(gd.Specs[:i:i], gd.Specs[i+1:]...)
+	case UnpathAll:
+		for _, id := range remoteIdents(f) {
+			id.Path = ""
+		}
 	case RemoveUses:
 		ids := remoteIdents(f)
 		if len(ids) == 0 {
